@@ -157,7 +157,8 @@ def make_dim(nix, rng, da, n):
         d.unit = mk_unit(rng) if rng.random() < 0.7 else None
         da.append_sampled_dimension(d.iv_f, unit=unit_str(d.unit), offset=None if off is None else d.off_f)
     elif kind == "range":
-        cur = F(rng.choice(["-2", "0", "1", "-0.75", "10"]))
+        # (the last two: ticks that are large compared with their spacing, e.g. event times late in a long recording)
+        cur = F(rng.choice(["-2", "0", "1", "-0.75", "10", "-2", "0", "1", "-0.75", "10", "1048576", "65536"]))
         ticks = []
         for _ in range(n):
             ticks.append(cur)
@@ -563,9 +564,47 @@ class Runner:
                     fsets = [list(range(n)) for n in fdata.shape]
                     self.judge("feature_data:%s" % ("untagged" if ltype == nix.LinkType.Untagged else "indexed_on_tag"), fcalls(rule), fdata, fsets,
                                False, False, sig + ("whole",), finf, rep)
-            if units is not None and scales is not None and trng.random() < 0.5:
+            if multi and scales is not None and trng.random() < 0.6:
+                self.restate_positions(trng, mt, "m%d_%d" % (ai, ti), P, E, ext is not None, one_d, posidx, dims, exact, data, info, rep,
+                                       (kinds, pc, ec, ucls, "MultiTag"))
+            elif units is not None and scales is not None and trng.random() < 0.5:
                 self.restate_units(trng, dims, pos, ext, units, ("m%d_%d" if multi else "t%d_%d") % (ai, ti), multi, calls, data, info, rep,
                                    (kinds, pc, ec, ucls, "MultiTag" if multi else "Tag"))
+
+    def restate_positions(self, trng, first, name, P, E, has_ext, one_d, posidx, dims, exact, data, info, rep, sig):
+        """The positions (and extents) of a multi-tag are restated through ANOTHER handle of the multi-tag - re-pointed to new
+        arrays in which the judged region sits in a new last row, or rewritten in place with the judged region moved to
+        another row; the first handle (which has already retrieved data) must use what is stored now."""
+        nix, np, ctx = self.nix, self.np, self.ctx
+        other = self.b.multi_tags[name]
+        npos = P.shape[0]
+        how = trng.choice(["repoint", "rewrite"]) if npos >= 2 else "repoint"
+        if how == "repoint":
+            q = npos
+            P2 = np.vstack([P, P[posidx:posidx + 1]])
+            E2 = np.vstack([E, E[posidx:posidx + 1]])
+            P2[posidx, :] = 0.0
+            E2[posidx, :] = 1.0
+            k = len(self.b.data_arrays)
+            other.positions = self.b.create_data_array("rp_%d" % k, "t", data=P2[:, 0] if one_d else P2)
+            if has_ext:
+                other.extents = self.b.create_data_array("re_%d" % k, "t", data=E2[:, 0] if one_d else E2)
+        else:
+            q = (posidx + 1 + trng.randrange(npos - 1)) % npos
+            P2, E2 = P.copy(), E.copy()
+            P2[[posidx, q]] = P2[[q, posidx]]
+            E2[[posidx, q]] = E2[[q, posidx]]
+            parr = self.b.data_arrays[other.positions.name]
+            parr[...] = P2[:, 0] if one_d else P2
+            if has_ext:
+                earr = self.b.data_arrays[other.extents.name]
+                earr[...] = E2[:, 0] if one_d else E2
+        ctx.count("positions_restated_through_another_handle:" + how)
+        for rule in (nix.SliceMode.Exclusive, nix.SliceMode.Inclusive):
+            sets, past = self.expect(dims, exact, data.shape, rule == nix.SliceMode.Inclusive)
+            self.judge("tagged_data:after_positions_%s_through_another_handle" % ("repointed" if how == "repoint" else "rewritten"),
+                       (lambda rule=rule: first.tagged_data(q, 0, rule)), data, sets, past, False,
+                       sig + (rule.name, "positions_" + how), dict(info, position_index=q, stop_rule=rule.name), rep)
 
     def restate_units(self, trng, dims, pos, ext, units, holder_name, multi, call_through_first, data, info, rep, sig):
         """The units of the tag are changed through ANOTHER handle; the first handle (which has already been used to retrieve
